@@ -5,8 +5,10 @@ import (
 	"math/rand"
 	"strings"
 
+	vast "verif/ast"
 	"verif/gen"
 	"verif/mut"
+	"verif/ref/typing"
 	"verif/ref/sem"
 	"verif/sup"
 )
@@ -18,10 +20,18 @@ type isoObs struct {
 	ms            string
 	clean         bool
 	ran           bool
+	shape         string // what the parser produced: processes (names), functions (names, arities), type names
+	perr          string // class of the parse diagnostic
 }
 
 func obsOf(r *sup.Result, mode string) isoObs {
 	o := isoObs{parseOK: r.ParseOK, tcOK: r.TcOK}
+	if r.Counts != nil {
+		o.shape = fmt.Sprintf("procs=%v funcs=%v/%v types=%v assumed=%d", r.Counts.ProcNames, r.Counts.FuncNames, r.Counts.FuncArity, r.Counts.TypeNames, r.Counts.Assumed)
+	}
+	if !r.ParseOK {
+		o.perr = errClass(r.ParseErr)
+	}
 	if r.Run != nil {
 		o.ran = true
 		o.ms = sem.MS(r.Run.Stdout)
@@ -36,7 +46,7 @@ func obsOf(r *sup.Result, mode string) isoObs {
 func checkC19() int {
 	c := NewCheck("C19")
 	r := rand.New(rand.NewSource(subSeed(c.Seed, 1919)))
-	c.Rule = "sequences of 5..40 programs (G1 programs, ill-typed mutants, unparseable edits, with repeats) are parsed, typechecked and executed one after another inside ONE worker process (async / sync alternating, np for contraction-free programs), also in reverse order and with every program doubled; baseline: each program alone in a fresh worker; oracle: the i-th program's (parse verdict, type verdict, printed multiset, clean completion) equals its baseline, no print or monitor event of an earlier run is observed during a later one, and the worker survives the whole sequence; non-trivial = distinct sequence of >= 5 programs containing accepted and rejected ones"
+	c.Rule = "sequences of 5..40 programs (G1 programs, ill-typed mutants, unparseable edits, complete programs followed by an illegal character, bare-expression programs, twins that differ in a few mode words only (own mode / replicable, inferable head annotations omitted), with repeats) are parsed, typechecked and executed one after another inside ONE worker process (async / sync alternating, np for contraction-free programs), also in reverse order and with every program doubled; baseline: each program alone in a fresh worker; oracle: the i-th program's (parse verdict, parse diagnostic class, what the parser produced: process / function / type names and arities, type verdict, printed multiset, clean completion) equals its baseline, no print or monitor event of an earlier run is observed during a later one, and the worker survives the whole sequence; non-trivial = distinct sequence of >= 5 programs containing accepted and rejected ones"
 	c.Assumptions = []string{"each program ends by exact quiescence before the next starts, so stragglers can only come from genuinely leaked activity", "prints are attributed to runs through the RuntimeEnvironment the print hook receives"}
 	base := genCases(c, c.pick(60, 600), 19, nil)
 	type item struct {
@@ -66,6 +76,28 @@ func checkC19() int {
 		if i%7 == 0 {
 			items = append(items, item{gen.RandSyntax(r), "async", "syntax", true})
 		}
+		if i%4 == 1 {
+			// a complete program followed by a character outside the alphabet
+			items = append(items, item{pc.Text + "\n" + illegalRunes[r.Intn(len(illegalRunes))] + "\n", mode, "illegal-tail", true})
+		}
+		if i%6 == 2 {
+			// a program that is one bare expression (the grammar's 'root' process)
+			l := fmt.Sprintf("bare%d", i)
+			t := []string{"print " + l + "; close self\n", "x <- new close self; print " + l + "; wait x; close self\n", "x : lin 1 <- new close self;\nwait x; print " + l + "; close self\n"}[r.Intn(3)]
+			items = append(items, item{t, mode, "bare-expression", true})
+		}
+		if i%3 == 2 {
+			// twins: the same program in its own mode and recoloured to replicable, both written
+			// with every inferable head annotation omitted: the texts differ in a few mode words only
+			a, _ := vast.BareHeads(pc.P, r, 100)
+			tw := mut.RecolorAll(pc.P, vast.Rep)
+			if typing.Check(tw).Kind == typing.Accept {
+				b, _ := vast.BareHeads(tw, r, 100)
+				if a.Text() != b.Text() {
+					items = append(items, item{a.Text(), mode, "twin-own-mode", pc.Contr}, item{b.Text(), mode, "twin-replicable", true})
+				}
+			}
+		}
 	}
 	job := func(it item, id int) sup.Job {
 		return sup.Job{Kind: "run", Text: it.text, Mode: it.mode, Tag: it.kind, Seed: uint64(id), Profile: "gosched", Procs: 4, EventBudget: 3000000}
@@ -88,6 +120,12 @@ func checkC19() int {
 			continue
 		}
 		baseObs[i] = &ob
+	}
+	var bares []int
+	for i, it := range items {
+		if it.kind == "bare-expression" {
+			bares = append(bares, i)
+		}
 	}
 	// sequences
 	nSeq := c.pick(50, 1200)
@@ -112,6 +150,16 @@ func checkC19() int {
 			// relatives next to each other: a program and its mutant share every name
 			if items[k].kind == "mutant" && k > 0 && baseObs[k-1] != nil && r.Intn(2) == 0 {
 				idx = append(idx, k-1, k)
+			}
+			// twins in both orders
+			if items[k].kind == "twin-replicable" && baseObs[k-1] != nil {
+				idx = append(idx, k-1, k)
+			}
+			// an unparseable text is followed by a bare expression now and then
+			if (items[k].kind == "illegal-tail" || items[k].kind == "edit" || items[k].kind == "syntax") && len(bares) > 0 && r.Intn(2) == 0 {
+				if b := bares[r.Intn(len(bares))]; baseObs[b] != nil {
+					idx = append(idx, b)
+				}
 			}
 		}
 		variants := map[string][]int{"forward": idx}
@@ -182,6 +230,11 @@ func checkC19() int {
 			}
 		}
 	}
+	// type-equality probes (a forward, call or cut between two names of one environment that
+	// are equal, or differ in one place): comparisons that fail after unfolding definitions
+	for _, p := range genEqProbes(subSeed(c.Seed, 1920), c.pick(150, 1200), 8) {
+		tcs = append(tcs, tcItem{text: p.text})
+	}
 	{
 		jobs := make([]sup.Job, len(tcs))
 		for i, t := range tcs {
@@ -193,13 +246,13 @@ func checkC19() int {
 			}
 		}
 	}
-	nTc := c.pick(30, 400)
+	nTc := c.pick(60, 600)
 	tcSeqStart := len(sjobs)
 	var tcIdx [][]int
 	for s := 0; s < nTc; s++ {
 		j := sup.Job{Kind: "seq"}
 		var idx []int
-		for len(idx) < 120 {
+		for len(idx) < 200 {
 			k := r.Intn(len(tcs))
 			if !tcs[k].have {
 				continue
@@ -207,7 +260,9 @@ func checkC19() int {
 			reps := 2 + r.Intn(2)
 			for q := 0; q < reps; q++ {
 				idx = append(idx, k)
-				j.Seq = append(j.Seq, sup.Job{Kind: "typecheck", Text: tcs[k].text})
+				// one, two or sixteen cores: state kept per core (pools, caches) is met again with
+				// certainty on one core and only sometimes on many
+				j.Seq = append(j.Seq, sup.Job{Kind: "typecheck", Text: tcs[k].text, Procs: []int{1, 2, 16}[s%3]})
 			}
 		}
 		sjobs = append(sjobs, j)
@@ -320,6 +375,10 @@ func checkC19() int {
 					what = "printed multiset"
 				case got.clean != b.clean:
 					what = "completion"
+				case got.shape != b.shape:
+					what = "parse result (processes, functions and types produced by the parser)"
+				case got.perr != b.perr:
+					what = "parse diagnostic"
 				}
 				w["in_sequence"] = fmt.Sprintf("%+v", got)
 				w["alone"] = fmt.Sprintf("%+v", *b)
